@@ -54,8 +54,10 @@ pub trait Interface: ErrorHandler {
     /// Parses and executes the commands in the input buffer.
     ///
     /// The result is written to the response buffer. Any remaining input that
-    /// was not parsed is returned. If an error occurs, the remaining input
-    /// is returned and the error is passed to the error handler.
+    /// was not parsed is returned. If an error occurs, the error is passed to
+    /// the error handler and the rest of the faulty program message (up to and
+    /// including its terminator) is discarded; if the terminator has not been
+    /// received yet, the remaining input is returned.
     async fn run<'a>(&mut self, mut input: &'a [u8], response: &mut impl crate::Write) -> &'a [u8] {
         let mut header = self.root_node();
 
@@ -74,7 +76,16 @@ pub trait Interface: ErrorHandler {
                 #[cfg(feature = "defmt")]
                 defmt::trace!("Parse error");
                 self.handle_error(error.into());
-                return input;
+                // Discard the rest of the faulty program message, so that the
+                // program messages that follow it are still executed.
+                match input.iter().position(|b| *b == b'\n') {
+                    Some(position) => {
+                        input = &input[position + 1..];
+                        header = self.root_node();
+                        continue;
+                    }
+                    None => return input,
+                }
             }
 
             let (i, call) = result.unwrap();
